@@ -26,6 +26,8 @@ pub struct Ctx {
     sigs_seen: BTreeMap<String, usize>,
     /// C18 mode: only violations of unchecked-code preconditions count (see `violation`).
     pub safety_only: bool,
+    /// Miri-sized inputs.
+    pub tiny: bool,
 }
 
 thread_local! {
@@ -89,6 +91,7 @@ impl Ctx {
             scratch: String::new(),
             sigs_seen: BTreeMap::new(),
             safety_only: false,
+            tiny: false,
         }
     }
 
